@@ -1,10 +1,74 @@
-(* C10 -- the layer tree stays well-formed under every edit history. *)
-From PsdV Require Import Base.Prelude Edit.Model Edit.Corr Edit.Inv.
+(* C10 -- the layer tree stays well-formed under every edit history.
+
+   Model: Edit/Model.v (state = forest of ids + the stored fields of every object; operations mirror
+   the code's order of effects; [conf] selects the code variant, all false = the pinned tree).
+   Invariant (Edit/Inv.v):  Inv s = I1 (a listed child's stored _parent is its lister)
+                                 /\ I2 (no object is listed twice, anywhere: NoDup of all listed ids)
+                                 /\ I3 (the stored _psd is inherited along every listing edge)
+                                 /\ W  (containers list layers; exactly the allocated ids occur; no cycle flag).
+   No cycle can be expressed in the forest: "no group is its own ancestor" is I2 on rose trees. *)
+From PsdV Require Import Base.Prelude Edit.Model Edit.Corr Edit.Inv Edit.Forest Edit.ProofsInv Edit.ProofsTree.
 Open Scope Z_scope.
 
-(* ---- what the faithful model refutes (each witness is replayed on the real code by harness/vh/c10.py) *)
+(* ---------------------------------------------------------------- the invariant, for all states and operations *)
 
-(* F-C10-1: appending a layer that is still listed elsewhere is accepted and breaks parent/uniqueness *)
+(* One step.  [guard] (Edit/ProofsInv.v): the operation names existing objects; a layer handed to
+   append / extend / insert / item assignment is detached; an extend list has no repetition and (before
+   repair 543e601) does not contain the group itself; the clipping flag is only assigned on the variant
+   where descendants() ignores clip_layers.  [quiet]: descendants() does not walk clip lists (variant
+   b1bb75f) or all clip lists are empty.  delete_layer / move_to_group / move_up / move_down / Group.new /
+   group_layers / remove / pop / clear / del need no guard beyond existing objects. *)
+Theorem step_inv : forall s o, Inv s -> quiet s -> guard s o -> Inv (fst (step s o)) /\ quiet (fst (step s o)).
+Proof. intros s o HI Q G. destruct (step_ok s o (conj HI Q) G) as [[A B] _]. split; assumption. Qed.
+Print Assumptions step_inv.
+
+(* All histories, all lengths: every state reached from the empty state through guarded operations *)
+Theorem reachable_inv : forall c h, cfg_ok c -> guards (empty_state_v c) h -> Inv (run (empty_state_v c) h).
+Proof. intros c h Hc Hg. apply (reachable_good c h Hc Hg). Qed.
+Print Assumptions reachable_inv.
+
+Theorem history_inv : forall h s, Inv s -> quiet s -> guards s h -> Inv (run s h).
+Proof. intros h s HI Q Hg. apply (run_good h s (conj HI Q) Hg). Qed.
+Print Assumptions history_inv.
+
+(* the hypotheses are satisfiable by non-trivial values: scene 1 (nested groups) and a guarded history on it *)
+Definition cfg_now : cfg := mkCfg true true true true true.   (* /repo at the time of writing *)
+Example inv_scene1 : Inv (run (empty_state_v cfg_now) init1) /\ quiet (run (empty_state_v cfg_now) init1).
+Proof. split; [apply Invb_iff; vm_compute; reflexivity | left; reflexivity]. Qed.
+Example guarded_history_scene1 :
+  guards (run (empty_state_v cfg_now) init1) [MoveToGroup 3 0; Insert 2 (-1) 6; GroupLayers [4; 5] None; MoveUp 7 (-2)].
+Proof. apply guardsb_ok. vm_compute. reflexivity. Qed.
+
+(* what Inv means for the user-visible statements of the property *)
+Theorem listed_child_reports_lister : forall s g c,
+  Inv s -> In g (ids_l (roots s)) -> In c (kid_ids s g) -> oparent (objs s c) = Some g.
+Proof. intros s g c HI Hg Hc. apply (I1_parent s g c HI Hc Hg). Qed.
+Print Assumptions listed_child_reports_lister.
+
+Theorem layer_reports_root_document : forall s d x,
+  Inv s -> kind s d = KDoc -> In x (ids_l (kids_of s d)) -> opsd (objs s x) = Some d.
+Proof. exact I3_global. Qed.
+Print Assumptions layer_reports_root_document.
+
+Theorem no_layer_reachable_twice : forall s, Inv s -> NoDup (ids_l (roots s)).
+Proof. exact inv_nodup. Qed.
+Print Assumptions no_layer_reachable_twice.
+
+(* ---------------------------------------------------------------- traversal and search *)
+Theorem traversal_once : forall s g, Inv s -> quiet s ->
+  descendants s g = ids_l (kids_of s g) /\ NoDup (descendants s g).
+Proof. exact ProofsTree.traversal_once. Qed.
+Print Assumptions traversal_once.
+
+Theorem find_visits_once : forall s g x, Inv s -> quiet s ->
+  count_z x (descendants s g) = if memz x (ids_l (kids_of s g)) then 1 else 0.
+Proof. exact find_once. Qed.
+Print Assumptions find_visits_once.
+
+(* ---------------------------------------------------------------- what the faithful model refutes *)
+(* each witness is replayed on the real code by harness/vh/c10.py; variants: cfg0 = the pinned tree *)
+
+(* F-C10-1 (open): a layer that is still listed elsewhere is accepted and breaks parent/uniqueness *)
 Theorem insert_listed_refuted :
   exists s o, Inv s /\ snd (step s o) = Done [] /\ ~ I1 (fst (step s o)) /\ ~ I2 (fst (step s o)).
 Proof.
@@ -15,7 +79,19 @@ Proof.
 Qed.
 Print Assumptions insert_listed_refuted.
 
-(* F-C10-2: g.extend([g]) passes the validity check, mutates the list, then raises RecursionError *)
+(* ... on every variant, also the current one *)
+Theorem insert_listed_refuted_all_variants : forall c : cfg,
+  exists s o, Inv s /\ snd (step s o) = Done [] /\ ~ I2 (fst (step s o)).
+Proof.
+  intro c. exists (run (empty_state_v c) init4), (Append 0 3).
+  destruct c as [[] [] [] [] []];
+    (split; [apply Invb_iff; vm_compute; reflexivity|];
+     split; [vm_compute; reflexivity|];
+     intro H; apply I2b_iff in H; vm_compute in H; discriminate).
+Qed.
+Print Assumptions insert_listed_refuted_all_variants.
+
+(* F-C10-2 (fixed by 543e601): g.extend([g]) passes the validity check, mutates, then RecursionError *)
 Theorem extend_self_refuted :
   exists s o, Inv s /\ snd (step s o) = Fail E_RECURSION /\ corrupt (fst (step s o)) = true.
 Proof.
@@ -24,8 +100,13 @@ Proof.
   split; vm_compute; reflexivity.
 Qed.
 Print Assumptions extend_self_refuted.
+(* with the repair the same call is refused with AssertionError and the forest is untouched *)
+Theorem extend_self_refused_after_repair :
+  let s := run (empty_state_v (mkCfg false true false false false)) init0 in
+  snd (step s (Extend 5 [5])) = Fail E_ASSERT /\ roots (fst (step s (Extend 5 [5]))) = roots s.
+Proof. split; vm_compute; reflexivity. Qed.
 
-(* F-C10-3: descendants() yields every clipping layer twice *)
+(* F-C10-3 (fixed by b1bb75f): descendants() yields every clipping layer twice *)
 Theorem descendants_twice_refuted :
   exists s g, Inv s /\ ~ NoDup (descendants s g).
 Proof.
@@ -35,20 +116,20 @@ Proof.
 Qed.
 Print Assumptions descendants_twice_refuted.
 
-(* F-C10-4: Group.group_layers with the parent inside the grouped layers is refused (AssertionError)
-   only after the layers were moved into the new group *)
-Theorem group_layers_late_refusal_refuted :
+(* F-C10-4 (open): Group.group_layers with the parent inside the grouped layers is refused
+   (AssertionError) only after the layers were moved into the new group -- on every variant *)
+Theorem group_layers_late_refusal_refuted : forall c : cfg,
   exists s o, Inv s /\ snd (step s o) = Fail E_ASSERT /\ kid_ids (fst (step s o)) 0 <> kid_ids s 0.
 Proof.
-  exists (run empty_state init4), (GroupLayers [2] (Some 2)).
-  split; [apply Invb_iff; vm_compute; reflexivity|].
-  split; [vm_compute; reflexivity|].
-  vm_compute. discriminate.
+  intro c. exists (run (empty_state_v c) init4), (GroupLayers [2] (Some 2)).
+  destruct c as [[] [] [] [] []];
+    (split; [apply Invb_iff; vm_compute; reflexivity|];
+     split; [vm_compute; reflexivity|]; vm_compute; discriminate).
 Qed.
 Print Assumptions group_layers_late_refusal_refuted.
 
-(* F-C10-6: a stale _clip_layers entry lets _update_layer_metadata re-point the _psd of a layer
-   that meanwhile lives in another document *)
+(* F-C10-6 (fixed by b1bb75f): a stale _clip_layers entry lets _update_layer_metadata re-point the
+   _psd of a layer that meanwhile lives in another document *)
 Theorem stale_clip_repoints_psd_refuted :
   exists s o, Inv s /\ snd (step s o) = Done [6] /\ ~ I3 (fst (step s o)).
 Proof.
